@@ -15,6 +15,9 @@ use std::fmt;
 /// The get_2bytes, get_byte and get_bit_index evaluate the constant expression but also convert
 /// to a specific low level type needed by instructions.
 
+/// How many symbol definitions an evaluation may pass through (`.equ a = b`, `.equ b = c`, ...)
+const MAX_SYMBOL_DEPTH: usize = 64;
+
 #[derive(Clone, PartialEq, Eq, Debug)]
 pub enum Expr {
     Ident(String),
@@ -110,17 +113,26 @@ impl Expr {
     }
 
     pub fn run(&self, constants: &dyn Context) -> Result<i64, ExprRunError> {
+        self.run_nested(constants, 0)
+    }
+
+    /// Evaluates the expression; `depth` counts how many symbol definitions have been entered
+    fn run_nested(&self, constants: &dyn Context, depth: usize) -> Result<i64, ExprRunError> {
         match self {
             Expr::Ident(ident) => match constants.get_expr(ident) {
                 Some(Expr::Const(address)) => Ok(address),
                 // TODO: check recursion for cross linked equs and other labels
-                Some(expr) => expr.run(constants),
+                Some(_) if depth >= MAX_SYMBOL_DEPTH => Err(ExprRunError::ArithmeticError(format!(
+                    "Definition of {} is nested too deeply (cyclic definition?)",
+                    ident
+                ))),
+                Some(expr) => expr.run_nested(constants, depth + 1),
                 None => Err(ExprRunError::MissingIdentifier(ident.clone())),
             },
             Expr::Const(value) => Ok(*value),
             Expr::Func(ident, argument) => {
                 if let Expr::Ident(name) = &**ident {
-                    let value = argument.run(constants)?;
+                    let value = argument.run_nested(constants, depth)?;
                     let ret_val = match name.to_lowercase().as_str() {
                         "low" => (value as u64 & 0xff) as i64,
                         "high" | "byte2" => ((value as u64 & 0xff00) >> 8) as i64,
@@ -159,8 +171,8 @@ impl Expr {
                 }
             }
             Expr::Binary(binary) => {
-                let left = binary.left.run(constants)?;
-                let right = binary.right.run(constants)?;
+                let left = binary.left.run_nested(constants, depth)?;
+                let right = binary.right.run_nested(constants, depth)?;
                 match binary.operator {
                     BinaryOperator::Add => match left.checked_add(right) {
                         Some(value) => Ok(value),
@@ -240,7 +252,7 @@ impl Expr {
             }
             Expr::Unary(unary) => match unary.operator {
                 UnaryOperator::Minus => {
-                    let value = unary.expr.run(constants)?;
+                    let value = unary.expr.run_nested(constants, depth)?;
                     match value.checked_neg() {
                         Some(value) => Ok(value),
                         None => Err(ExprRunError::ArithmeticError(format!(
@@ -250,11 +262,11 @@ impl Expr {
                     }
                 }
                 UnaryOperator::BitwiseNot => {
-                    let value = unary.expr.run(constants)?;
+                    let value = unary.expr.run_nested(constants, depth)?;
                     Ok(!value)
                 }
                 UnaryOperator::LogicalNot => {
-                    let value = unary.expr.run(constants)?;
+                    let value = unary.expr.run_nested(constants, depth)?;
                     Ok((value == 0) as i64)
                 }
             },
